@@ -194,10 +194,12 @@ class JitCore_Python(jitcore.JitCore):
                 if has_delayslot:
                     delay_slot_set = exec_engine.eval_expr(codegen.delay_slot_set)
                     if delay_slot_set.is_int() and int(delay_slot_set) != 0:
-                        return int(exec_engine.eval_expr(codegen.delay_slot_dst))
+                        offset = int(exec_engine.eval_expr(codegen.delay_slot_dst))
 
                 # Extern of asmblock, must have an offset
                 assert offset is not None
+                # As the C backends do, leave the block with an up to date PC
+                update_pc(offset)
                 return offset
 
         # Associate myfunc with current loc_key
